@@ -76,6 +76,7 @@ class RngModel(Ext):
         self.state_base = None    # (seed token, number of draws) adopted through bit_generator.state = ...
         self.script = None        # optional list of values to hand out instead of fresh symbols
         self.n_elem = 0
+        self.elems = []           # every scalar handed out, in order, with its support
 
     def _u(self, I, lo, hi, label):
         l, h = to_z3(lo, "real"), to_z3(hi, "real")
@@ -88,9 +89,11 @@ class RngModel(Ext):
             xz = to_z3(x, "real")
             # the scripted value must lie in the (closed) support of the requested law
             I.path.oblige(f"rng.script[{k}]#in_support", z3.And(xz >= l, xz <= h), kind="call.pre")
-            return x if isinstance(x, Sym) else x
-        x = I.path.fresh(f"{self.name}_{label}{len(self.draws)}", "real")
+            self.elems.append((x, lo, hi))
+            return x
+        x = I.path.fresh(f"{self.name}_{label}{k}", "real")
         I.path.assume(z3.And(x.t >= l, z3.Or(x.t < h, z3.And(l == h, x.t == l))))
+        self.elems.append((x, lo, hi))
         return x
 
     def py_getattr(self, I, name):
